@@ -8,6 +8,7 @@ Rules compare shapes of code; several spellings of the same behaviour must there
     N10 X = p if c else q  /  return p if c else q  ->  the if-statement it abbreviates
     N12 [e(k) for k in (c0, c1)]  ->  [e(c0), e(c1)]                   (literal tuple / list of constants)
     N13 X = []; for T in IT: X.append(E)  ->  X = [E for T in IT]      (adjacent; also with one `if C:` around the append; T not read elsewhere)
+    N18 x = A; x = F(x)  ->  x = F(A)                                    (adjacent rebinding of one name, x read once on the right)
     N17 for k in (c0, c1) / range(2): BODY  ->  BODY[k := c0]; BODY[k := c1]     (literal constants, at most 2 - the two-axis idiom; no break / continue; k only used inside)
     N16 X = a.b.c; if X is None: X = F  ->  if a.b.c is not None: X = a.b.c else: X = F     (fetch-then-default)
     N15 x = a.b.c; ...x...  ->  ...a.b.c...                             (x a single-assignment alias of a pure attribute chain whose base / prefixes are not reassigned)
@@ -252,6 +253,9 @@ class _Passthrough:
     def _unroll_loop(self, st):
         return None
 
+    def _merge_rebinding(self, st, nxt):
+        return None
+
     def block_done(self, stmts):
         return _Stmts.block(self, stmts)
 
@@ -291,6 +295,12 @@ class _Stmts:
         i = 0
         while i < len(body):
             st = body[i]
+            # N18: x = A; x = F(x)   ->   x = F(A)      (adjacent rebinding of the same name, x read exactly once on the right, not under a lambda / comprehension)
+            merged = self._merge_rebinding(st, body[i + 1] if i + 1 < len(body) else None)
+            while merged is not None:
+                body = body[:i] + [merged] + body[i + 2:]
+                st = merged
+                merged = self._merge_rebinding(st, body[i + 1] if i + 1 < len(body) else None)
             # N17: for k in (c0, c1) / range(2): BODY  ->  BODY[k := c0]; BODY[k := c1]      (literal constants; k not assigned in BODY, no break / continue, k not read after)
             unrolled = self._unroll_loop(st)
             if unrolled is not None:
@@ -365,6 +375,28 @@ class _Stmts:
                     return out[:k] + [new_if] + st.body
             i += 1
         return out
+
+    def _merge_rebinding(self, st, nxt):
+        import copy
+        if not (isinstance(st, ast.Assign) and len(st.targets) == 1 and isinstance(st.targets[0], ast.Name) and isinstance(nxt, ast.Assign) and len(nxt.targets) == 1
+                and isinstance(nxt.targets[0], ast.Name) and nxt.targets[0].id == st.targets[0].id):
+            return None
+        x = st.targets[0].id
+        uses = [n for n in ast.walk(nxt.value) if isinstance(n, ast.Name) and n.id == x]
+        if len(uses) != 1 or not isinstance(uses[0].ctx, ast.Load):
+            return None
+        for n in ast.walk(nxt.value):
+            if isinstance(n, (ast.Lambda, ast.ListComp, ast.SetComp, ast.DictComp, ast.GeneratorExp, ast.IfExp, ast.BoolOp)) and any(m is uses[0] for m in ast.walk(n)):
+                return None   # evaluated later, repeatedly or conditionally
+        if _names(st.value, x) and False:
+            return None
+        target = uses[0]
+
+        class R(ast.NodeTransformer):
+            def visit_Name(s2, n):
+                return copy.deepcopy(st.value) if n is target else n
+        new_val = R().visit(nxt.value)
+        return ast.copy_location(ast.Assign(targets=[ast.Name(id=x, ctx=ast.Store())], value=new_val), st)
 
     def _unroll_loop(self, st):
         import copy
